@@ -436,7 +436,125 @@ def analyse(ctx, out, clients, replay):
     return True
 
 
+# ------------------------------------------------- real script jobs alongside
+SIDE_DEVICES = [dict(label='A', group='G', location='P'),
+                dict(label='B', group='G', location='P'),
+                dict(label='C', group='H', location='P')]
+# each script keeps to its own light and prints values in its own thousand
+SIDE_SCRIPTS = {
+    'A': ('define dbl with x begin return { x * 2 } end assign t 1000 '
+          'repeat 4 with i from 1 to 4 begin '
+          'assign t { t + 10 + [ dbl i ] * 3 } on "A" end print t '
+          'define tri with n begin if { n <= 0 } return 0 '
+          'return { n + [ tri { n - 1 } ] } end print { 1000 + [ tri 6 ] }'),
+    'B': ('define half with v begin return { v / 2 } end time 0.1 '
+          'repeat 3 with k from 1 to 3 begin '
+          'print { 2000 + k * 10 + [ half { k * 4 } ] } off "B" end '
+          'time 0 print { 2000 + [ half 8 ] + [ half 6 ] * [ half 4 ] }'),
+    'C': ('assign s 3000 repeat in "C" as x begin on x end '
+          'define inc with a b begin return { a + b + 1 } end '
+          'repeat 3 begin assign s [ inc s [ inc 1 1 ] ] set "C" end print s '
+          'hue { 10 + [ inc 2 3 ] } set "C" print { 3000 + hue }'),
+}
+SIDE_SOLO = {}
+
+
+def side_stream(log, key):
+    lo = {'A': 1000, 'B': 2000, 'C': 3000}[key]
+    out = []
+    for e in log:
+        if e[0] == 'dev' and e[1] == key:
+            out.append((e[2], repr(e[3])))
+        elif e[0] == 'out' and e[1] == 'out' and isinstance(
+                e[2], (int, float)) and lo <= e[2] < lo + 1000:
+            out.append(('print', e[2]))
+    return out
+
+
+def run_side(seed, keys, policy, depth):
+    from bvf import simnet, vsys
+    from bardolph.controller.script_job import ScriptJob
+    env.THREAD_EXCEPTIONS.clear()
+    env.MACHINE_STOPS.clear()
+    s = sched.begin(seed, policy=policy, depth=depth, max_steps=400000)
+    res = {'deadlock': None}
+    try:
+        vsys.configure(SIDE_DEVICES, 0.1)
+        jobs = [(k, ScriptJob.from_string(SIDE_SCRIPTS[k])) for k in keys]
+        jc = job_control.JobControl()
+        for n, (k, job) in enumerate(jobs):
+            if n == 0:
+                jc.add_job(job, 'queued-' + k)
+            else:
+                jc.spawn_job(job, 'bg-' + k)
+        s.block_until(lambda: not jc.has_jobs() or s.deadlock, 'all jobs')
+        s.block_until(lambda: all(t.done for t in s.order if t is not s.main),
+                      'threads', timeout=20)
+    except (sched.Deadlock, sched.Livelock) as ex:
+        res['deadlock'] = str(ex)
+    finally:
+        log = list(simnet.LOG)
+        sched.end()
+    res.update(log=log, stops=list(env.MACHINE_STOPS),
+               thread_exc=list(env.THREAD_EXCEPTIONS), steps=s.steps,
+               schedule=list(s.choices))
+    return res
+
+
+def part_side_by_side(ctx):
+    """two or three real script jobs at the same time (one queued, the others
+    in the background), each on its own machine: what each of them sends and
+    prints is what it sends and prints when it runs alone"""
+    for k in SIDE_SCRIPTS:
+        if k not in SIDE_SOLO:
+            r = run_side(1, [k], 'random', 1)
+            assert not r['deadlock'] and not r['stops'], (k, r['deadlock'],
+                                                          r['stops'])
+            SIDE_SOLO[k] = side_stream(r['log'], k)
+            assert len(SIDE_SOLO[k]) >= 6, (k, SIDE_SOLO[k])
+    n = 6000 if ctx.tier == 'thorough' else 160
+    for i in range(ctx.shard, n, ctx.nshards):
+        rng = ctx.rng('side', i)
+        keys = rng.sample(sorted(SIDE_SCRIPTS), rng.choice([2, 2, 3]))
+        policy = rng.choice(['random', 'random', 'pct'])
+        depth = rng.choice([1, 2, 3])
+        seed = ctx.seed * 1000003 + i
+        res = run_side(seed, keys, policy, depth)
+        replay = {'part': 'side-by-side', 'scripts': keys, 'policy': policy,
+                  'depth': depth, 'seed': seed}
+        ctx.case('S:' + sig(res['schedule']), nontrivial=True)
+        ctx.count('side_by_side_runs')
+        if res['deadlock']:
+            if res['deadlock'].startswith('LIVE'):
+                ctx.count('side_by_side_budget_exhausted')
+                continue
+            ctx.violation('side-by-side:deadlock', res['deadlock'][:300],
+                          replay)
+            continue
+        if res['stops'] or res['thread_exc']:
+            ctx.violation('side-by-side:abort', '{} {} | scripts {}'.format(
+                res['stops'][:1], res['thread_exc'][:1], keys), replay)
+            continue
+        for k in keys:
+            got = side_stream(res['log'], k)
+            if got != SIDE_SOLO[k]:
+                d = next((j for j, (x, y) in enumerate(zip(got, SIDE_SOLO[k]))
+                          if x != y), min(len(got), len(SIDE_SOLO[k])))
+                ctx.violation('side-by-side:job-disturbed',
+                              'script {} alongside {}: event {} is {} where it '
+                              'is {} when the script runs alone'.format(
+                                  k, [x for x in keys if x != k], d,
+                                  got[d] if d < len(got) else None,
+                                  SIDE_SOLO[k][d] if d < len(SIDE_SOLO[k])
+                                  else None), replay)
+                break
+        else:
+            ctx.count('side_by_side_ok')
+
+
 def run_shard(ctx):
+    env.configure([])
+    part_side_by_side(ctx)
     env.configure([])
     n = N[ctx.tier]
     for i in range(ctx.shard, n, ctx.nshards):
@@ -490,6 +608,7 @@ def finalize(merged):
         'scheduler_steps': c.get('scheduler_steps', 0)}
     for need in ('histories_ok', 'completion_inside_concurrent_enqueue',
                  'policy:pct', 'call:clear', 'call:stop_handle',
+                 'side_by_side_ok',
                  'body:raise-base', 'body:loop'):
         if not c.get(need) and not merged['violations']:
             merged['inconclusive'].append('monitor observed nothing: ' + need)
